@@ -33,6 +33,13 @@ inductive HostMode where
 
 abbrev R (n : Nat) := Except Fail (BitVec n)
 
+/-- results are compared by `decide` in the witnesses -/
+instance instDecidableEqExcept {ε α : Type} [DecidableEq ε] [DecidableEq α] : DecidableEq (Except ε α)
+  | .ok a, .ok b => if h : a = b then isTrue (by rw [h]) else isFalse (fun h' => h (by cases h'; rfl))
+  | .error a, .error b => if h : a = b then isTrue (by rw [h]) else isFalse (fun h' => h (by cases h'; rfl))
+  | .ok _, .error _ => isFalse (fun h => by cases h)
+  | .error _, .ok _ => isFalse (fun h => by cases h)
+
 /-- C truth value as `int` -/
 def b2i (b : Bool) : BitVec 32 := if b then 1#32 else 0#32
 
